@@ -130,7 +130,30 @@ fn read_lines(path: &str) -> Vec<String> {
     std::io::BufReader::new(f).lines().map(|l| l.unwrap()).collect()
 }
 
-/// split at case boundaries into `jobs` chunks, run each chunk in a child process, concatenate
+/// Split at case boundaries into chunks of at most `CHUNK` cases, run the chunks in child processes (`jobs` at
+/// a time), concatenate. One process per chunk bounds what instance churn accumulates in a process (threads and
+/// connections of dropped instances are not all released) and the cost of re-running a chunk after a crash.
+const CHUNK: usize = 40;
+
+fn spawn_chunk(exe: &std::path::Path, part: &str, work: &str, tag: &str) -> std::process::Child {
+    std::process::Command::new(exe)
+        .args([
+            "run",
+            "--ops",
+            &format!("{}.ops", part),
+            "--out",
+            part,
+            "--stats",
+            &format!("{}.stats", part),
+            "--work",
+            &format!("{}/{}", work, tag),
+            "--jobs",
+            "1",
+        ])
+        .spawn()
+        .expect("spawn child")
+}
+
 fn run_parallel(ops: &str, out: &str, stats_path: Option<&str>, work: &str, jobs: usize) {
     let lines = read_lines(ops);
     let starts: Vec<usize> = lines
@@ -142,73 +165,49 @@ fn run_parallel(ops: &str, out: &str, stats_path: Option<&str>, work: &str, jobs
     if jobs <= 1 || starts.is_empty() {
         return run_single(ops, out, stats_path, work);
     }
-    let jobs = jobs.min((starts.len() + 1) / 2).max(1);
     let exe = std::env::current_exe().unwrap();
-    let per = (starts.len() + jobs - 1) / jobs;
-    let mut children = vec![];
+    // chunk boundaries (line indices); lines before the first case go to the first chunk
+    let per = CHUNK.min((starts.len() + jobs - 1) / jobs).max(1);
+    let mut parts: Vec<String> = vec![];
+    let mut lo = 0usize;
     let mut j = 0;
-    let mut lo = 0usize; // lines before the first case go to the first chunk
     while j * per < starts.len() {
-        let hi = if (j + 1) * per < starts.len() {
-            starts[(j + 1) * per]
-        } else {
-            lines.len()
-        };
+        let hi = if (j + 1) * per < starts.len() { starts[(j + 1) * per] } else { lines.len() };
         let part = format!("{}.part{}", out, j);
         std::fs::write(format!("{}.ops", part), lines[lo..hi].join("\n") + "\n").unwrap();
-        let child = std::process::Command::new(&exe)
-            .args([
-                "run",
-                "--ops",
-                &format!("{}.ops", part),
-                "--out",
-                &part,
-                "--stats",
-                &format!("{}.stats", part),
-                "--work",
-                &format!("{}/j{}", work, j),
-                "--jobs",
-                "1",
-            ])
-            .spawn()
-            .expect("spawn child");
-        children.push((child, part));
+        parts.push(part);
         lo = hi;
         j += 1;
     }
-    let mut w = BufWriter::new(std::fs::File::create(out).unwrap());
     let mut total = Stats::default();
-    for (mut c, part) in children {
-        let mut st = c.wait().expect("child");
-        // the real code occasionally aborts (heap corruption at instance teardown/start-up, seen once in
-        // a few hundred restarts); the chunk is deterministic, so it is simply run again and counted
-        let mut tries = 0;
-        while !st.success() && tries < 3 {
-            tries += 1;
-            total.inc("child_process_crash_retries");
-            let j = part.rsplit("part").next().unwrap_or("0").to_string();
-            st = std::process::Command::new(&exe)
-                .args([
-                    "run",
-                    "--ops",
-                    &format!("{}.ops", part),
-                    "--out",
-                    &part,
-                    "--stats",
-                    &format!("{}.stats", part),
-                    "--work",
-                    &format!("{}/j{}r{}", work, j, tries),
-                    "--jobs",
-                    "1",
-                ])
-                .status()
-                .expect("respawn child");
+    // a pool of `jobs` children
+    let mut running: Vec<(usize, std::process::Child, usize)> = vec![]; // (part index, child, tries)
+    let mut next = 0usize;
+    while next < parts.len() || !running.is_empty() {
+        while running.len() < jobs && next < parts.len() {
+            let c = spawn_chunk(&exe, &parts[next], work, &format!("j{}", next));
+            running.push((next, c, 0));
+            next += 1;
         }
-        if !st.success() {
-            eprintln!("child failed: {}", part);
+        // wait for the oldest child
+        let (idx, mut child, tries) = running.remove(0);
+        let st = child.wait().expect("child");
+        if st.success() {
+            continue;
+        } else if tries < 3 {
+            // the real code occasionally aborts (heap corruption at instance teardown/start-up, seen a few times
+            // in some thousand restarts); the chunk is deterministic, so it is run again and counted
+            total.inc("child_process_crash_retries");
+            let c = spawn_chunk(&exe, &parts[idx], work, &format!("j{}r{}", idx, tries + 1));
+            running.push((idx, c, tries + 1));
+        } else {
+            eprintln!("child failed: {}", parts[idx]);
             std::process::exit(3);
         }
-        for l in read_lines(&part) {
+    }
+    let mut w = BufWriter::new(std::fs::File::create(out).unwrap());
+    for part in &parts {
+        for l in read_lines(part) {
             writeln!(w, "{}", l).unwrap();
         }
         if let Ok(s) = std::fs::read_to_string(format!("{}.stats", part)) {
@@ -220,11 +219,12 @@ fn run_parallel(ops: &str, out: &str, stats_path: Option<&str>, work: &str, jobs
                 }
             }
         }
-        let _ = std::fs::remove_file(&part);
+        let _ = std::fs::remove_file(part);
         let _ = std::fs::remove_file(format!("{}.ops", part));
         let _ = std::fs::remove_file(format!("{}.stats", part));
     }
     w.flush().unwrap();
+    let _ = std::fs::remove_dir_all(work);
     if let Some(p) = stats_path {
         total.write(p);
     }
